@@ -799,7 +799,7 @@ func c09ConcHistory(rep *verifkit.Report, rng *rand.Rand, dir string, idx int, s
 
 func TestVerifC09Concurrent(t *testing.T) {
 	rep := verifkit.New(c09Prop(), c09Part(),
-		"case = one round of a concurrent history on a running module: 8 updater goroutines + 2 readers of GET /control/stats (+ hour advancer that either calls flush() as the only flusher or, with the real Start() loop alive, waits for it; + optional retention toggler); checked per read (between completed and started updates), per round with porcupine against a counter model, at quiescence exactly (totals, categories, per-hour bounds from the hour tags), and across a final clean restart; -race is on; non-trivial = the round had a rollover that overlapped at least one update; distinct by the observed operation order and read values; storm rounds: 24-60 back-to-back rollovers under 4 hammering readers; reset rounds (C09 only): POST /control/stats_reset hammered against the real loop and readers while every tick is a rollover, then reset, count, advance, wait for the real loop, count, compare; shutdown rounds (C09 only): counts in hour H, a writer transaction (as a dashboard read holds) delays Close between detaching the database and serialising the unit, the hour id changes and flush runs in that gap, then New on the same file and the model comparison; in-flight-reset rounds (C09 only): 1-4 reads (GET /control/stats, TopClientsIP) are inside loadUnits when POST /control/stats_reset starts, after everything has returned k updates are counted and every later report must show exactly those k")
+		"case = one round of a concurrent history on a running module: 8 updater goroutines + 2 readers of GET /control/stats (+ hour advancer that either calls flush() as the only flusher or, with the real Start() loop alive, waits for it; + optional retention toggler); checked per read (between completed and started updates), per round with porcupine against a counter model, at quiescence exactly (totals, categories, per-hour bounds from the hour tags), and across a final clean restart; -race is on; non-trivial = the round had a rollover that overlapped at least one update; distinct by the observed operation order and read values; storm rounds: 24-60 back-to-back rollovers under 4 hammering readers; reset rounds (C09 only): POST /control/stats_reset hammered against the real loop and readers while every tick is a rollover, then reset, count, advance, wait for the real loop, count, compare; shutdown rounds (C09 only): counts in hour H, a writer transaction (as a dashboard read holds) delays Close between detaching the database and serialising the unit, the hour id changes and flush runs in that gap, then New on the same file and the model comparison; in-flight-reset rounds (C09 only): 1-4 reads (GET /control/stats, TopClientsIP) are inside loadUnits when POST /control/stats_reset starts, after everything has returned k updates are counted and every later report must show exactly those k; pending-rollover rounds (C09 only): a GET is kept in flight holding the configuration lock, the hour id changes, the hourly check starts and waits behind the read, a reset completes, the read ends; after quiescence exactly the queries counted after the reset must be reported, also after a restart")
 	defer func() {
 		if err := rep.Write(); err != nil {
 			t.Fatal(err)
@@ -849,6 +849,11 @@ func TestVerifC09Concurrent(t *testing.T) {
 			c09ResetInFlightHistory(rep, rng, dir, i)
 		}
 		need = append(need, "reset_rounds_with_a_read_spanning_the_reset")
+		pLoop, pDirect := verifkit.Pick(1, 10), verifkit.Pick(24, 300)
+		for i := 0; i < pLoop+pDirect; i++ {
+			c09ResetWhileRolloverPendingHistory(rep, rng, dir, i, i < pLoop && !c09RealLoopStuck.Load())
+		}
+		need = append(need, "resets_completed_while_a_rollover_flush_was_pending")
 	}
 	if rep.Violated() {
 		return
@@ -1566,5 +1571,235 @@ func c09ResetInFlightHistory(rep *verifkit.Report, rng *rand.Rand, dir string, i
 	rep.Class("shape:reset-with-reads-in-flight")
 	if idx == 0 {
 		rep.Sample(map[string]any{"reset_with_reads_in_flight": steps})
+	}
+}
+
+// c09ResetWhileRolloverPendingHistory: a reset that lands between the hourly
+// check's look at the clock and its rotation of the unit.
+//
+// GET /control/stats holds the configuration lock for reading for its whole
+// duration; the hourly check needs it exclusively and waits behind a read in
+// flight; POST /control/stats_reset does not take it at all.  So at an hour
+// boundary a reset can complete while a rollover is pending.  The read is kept
+// in flight at a harness-owned point (Config.ShouldCountClient, called while
+// the top clients are built, after the database transaction is over), the hour
+// id advances, the hourly check is started (flush() in its own goroutine as
+// the only flusher, or the real Start() loop) and given a moment to reach the
+// lock, the reset runs to completion, 0-2 further reads pile up, the read is
+// released and the pending check finishes.  Then k queries are counted: every
+// later report - also after a clean restart - must show exactly those k in
+// the current hour (a reset removes everything counted before it).
+func c09ResetWhileRolloverPendingHistory(rep *verifkit.Report, rng *rand.Rand, dir string, idx int, realLoop bool) {
+	file := filepath.Join(dir, fmt.Sprintf("pending-%d.db", idx))
+	defer os.Remove(file)
+	hour := &atomic.Uint32{}
+	hour.Store(400000 + uint32(rng.Intn(100000)))
+	limitH := []uint32{24, 24, 168}[rng.Intn(3)]
+	steps := []any{fmt.Sprintf("New(limit %d h) at hour %d, real loop: %v", limitH, hour.Load(), realLoop)}
+	in, err := c09Open(file, hour, limitH, true, realLoop)
+	if err != nil {
+		rep.Violate("conc:new-failed", "stats.New failed on a fresh file: "+err.Error(), steps)
+		return
+	}
+	cur := in
+	defer func() {
+		cur.close()
+		c09StopLoop(in)
+	}()
+	m := &c09Model{Hours: map[uint32]*c09Hour{}, Cur: hour.Load(), LimitH: limitH, Enabled: true}
+	violate := func(key, what string, extra map[string]any) {
+		w := map[string]any{"steps": steps, "model": m.snapshot()}
+		for k, v := range extra {
+			w[k] = v
+		}
+		rep.Violate(key, what, w)
+	}
+	burst := func(on *c09Inst, lo, hi int) int {
+		n := lo + rng.Intn(hi-lo+1)
+		for i := 0; i < n; i++ {
+			e := c09ValidEntry(rng, 20, 30)
+			on.update(e)
+			m.count(m.Cur, e.Result)
+		}
+		return n
+	}
+	before := 0
+	if !realLoop {
+		for i, n := 0, rng.Intn(3); i < n; i++ {
+			before += burst(in, 1, 20)
+			hour.Add(1)
+			if p := in.flush(); p != "" {
+				violate("conc:flush-panic", "flush crashed: "+p, nil)
+				return
+			}
+			m.Cur = hour.Load()
+			m.expire()
+		}
+	}
+	before += burst(in, 1, 30)
+	hourH := m.Cur
+	steps = append(steps, fmt.Sprintf("%d countable updates, the last ones in the current hour %d", before, hourH))
+
+	// 1. One read in flight, holding the configuration lock for reading.
+	gate := c09NewGate()
+	in.gate.Store(gate)
+	var wg sync.WaitGroup
+	wg.Add(1)
+	go func() {
+		defer wg.Done()
+		in.call("GET", "/control/stats", "")
+	}()
+	select {
+	case <-gate.entered:
+	case <-time.After(10 * time.Second):
+		close(gate.release)
+		wg.Wait()
+		rep.Unspec("pending-rollover-round:read-did-not-reach-the-client-filter")
+		rep.Eval(false, "")
+		return
+	}
+	// 2. The hour changes; the hourly check looks at the clock and waits.
+	calls := in.idCalls.Load()
+	k := 1 + uint32(rng.Intn(3))
+	hour.Add(k)
+	flushDone := make(chan string, 1)
+	if !realLoop {
+		go func() { flushDone <- in.flush() }()
+	}
+	looked := false
+	for deadline := time.Now().Add(5 * time.Second); time.Now().Before(deadline); {
+		if looked = in.idCalls.Load() > calls; looked {
+			break
+		}
+		time.Sleep(200 * time.Microsecond)
+	}
+	// Let it get from the clock to the lock (workload shaping only).
+	time.Sleep(time.Duration(2+rng.Intn(4)) * time.Millisecond)
+	steps = append(steps, fmt.Sprintf("GET /control/stats in flight (held while the top clients are built); hour id +%d = %d; hourly check has read the clock: %v", k, hour.Load(), looked))
+	// 3. The reset completes while the read is in flight.
+	if p := in.reset(); p != "" {
+		close(gate.release)
+		wg.Wait()
+		violate("conc:reset-failed:reset-while-rollover-pending", "POST /control/stats_reset failed: "+p, nil)
+		return
+	}
+	pending := looked
+	if !realLoop {
+		select {
+		case p := <-flushDone:
+			// The check did not wait for the read (nothing to assert about that).
+			pending = false
+			flushDone <- p
+		default:
+		}
+	}
+	for i, n := 0, rng.Intn(3); i < n; i++ {
+		wg.Add(1)
+		go func() {
+			defer wg.Done()
+			in.call("GET", "/control/stats", "")
+		}()
+	}
+	callsAtRelease := in.idCalls.Load()
+	close(gate.release)
+	// 4. Quiescence: reads returned, the pending check is over.
+	joined := make(chan struct{})
+	go func() { wg.Wait(); close(joined) }()
+	stall := func(what string) {
+		buf := make([]byte, 4<<20)
+		fmt.Fprintf(os.Stderr, "C09 watchdog: %s did not finish in %s\n%s\n", what, c09StallAfter, buf[:runtime.Stack(buf, true)])
+		rep.Inconcl(fmt.Sprintf("%s did not finish within %s (goroutine dump in the part's log)", what, c09StallAfter))
+		_ = rep.Write()
+		os.Exit(3)
+	}
+	select {
+	case <-joined:
+	case <-time.After(c09StallAfter):
+		stall("reads around a reset with a pending rollover")
+	}
+	if realLoop {
+		// The pending check is over once the loop has looked at the clock
+		// again (it sleeps a second after a check that had nothing to do).
+		over := false
+		for deadline := time.Now().Add(5 * time.Second); time.Now().Before(deadline); {
+			if over = in.idCalls.Load() > callsAtRelease; over {
+				break
+			}
+			time.Sleep(2 * time.Millisecond)
+		}
+		if !over {
+			rep.Unspec("pending-rollover-round:real-loop-check-not-seen-finishing-within-5s")
+			rep.Eval(false, "")
+			c09RealLoopStuck.Store(true)
+			return
+		}
+		time.Sleep(20 * time.Millisecond)
+	} else {
+		select {
+		case p := <-flushDone:
+			if p != "" {
+				violate("conc:flush-panic:reset-while-rollover-pending", "flush crashed: "+p, nil)
+				return
+			}
+		case <-time.After(c09StallAfter):
+			stall("the hourly check pending behind a read")
+		}
+	}
+	in.gate.Store(nil)
+	steps = append(steps, fmt.Sprintf("POST /control/stats_reset returned while the check was still pending: %v; read released; reads and the check have finished", pending))
+	rep.Event("pending_rollover_rounds")
+	if pending {
+		rep.Event("resets_completed_while_a_rollover_flush_was_pending")
+	}
+
+	// 5. The model is empty; count and compare.
+	m.clear()
+	m.Cur = hour.Load()
+	report := func(on *c09Inst, where string) bool {
+		r, problem := on.read()
+		if problem != "" {
+			violate("conc:read-failed:reset-while-rollover-pending", "GET /control/stats failed "+where+": "+problem, nil)
+			return false
+		}
+		mm, _ := m.check(r)
+		if len(mm) == 0 {
+			return true
+		}
+		var want uint64
+		for _, mh := range m.Hours {
+			want += mh.all().Total
+		}
+		key := "conc:" + mm[0].Kind + ":reset-while-rollover-pending"
+		if r.NumDNSQueries > want {
+			key = "conc:cleared-queries-reported-after-reset:reset-while-rollover-pending"
+		}
+		violate(key, fmt.Sprintf("%s: %d queries were counted after POST /control/stats_reset had returned, the report shows num_dns_queries=%d (%d had been counted before the reset, the last ones in hour %d): %s",
+			where, want, r.NumDNSQueries, before, hourH, mm[0].Detail),
+			map[string]any{"mismatches": mm, "report": c09Brief(r, m.first()), "current_unit_hour": on.unitHour(), "clock_hour": hour.Load()})
+		return false
+	}
+	ok := report(in, "right after the reset and the pending check")
+	for pass := 0; pass < 2 && ok; pass++ {
+		n := burst(in, 1, 12)
+		steps = append(steps, fmt.Sprintf("%d countable updates in hour %d", n, m.Cur))
+		ok = report(in, "after counting again")
+	}
+	if ok {
+		if p := in.close(); p != "" {
+			violate("conc:close-failed:reset-while-rollover-pending", "Close failed: "+p, nil)
+			ok = false
+		} else if in2, oerr := c09Open(file, hour, limitH, true, false); oerr != nil {
+			violate("conc:new-failed:reset-while-rollover-pending", "stats.New failed on the file a clean Close left: "+oerr.Error(), nil)
+			ok = false
+		} else {
+			cur = in2
+			steps = append(steps, "Close + New on the same file")
+			ok = report(in2, "after a clean restart")
+		}
+	}
+	rep.Eval(ok && pending, fmt.Sprintf("pending|%d|%v|%s", idx, realLoop, verifkit.JSON(steps)))
+	rep.Class("shape:reset-while-rollover-pending")
+	if idx == 0 {
+		rep.Sample(map[string]any{"reset_while_rollover_pending": steps})
 	}
 }
